@@ -10,7 +10,7 @@ PROP = 'C28'
 FAILURE_KINDS = ('RpcError', 'ConnectionError', 'ReadTimeout', 'RuntimeError')
 
 
-def impl_nodes_used(n, outcomes, kinds=None):
+def impl_nodes_used(n, outcomes, kinds=None, mutate=None):
     """outcomes: 1 = the node answers, 0 = the request fails; kinds (same length, optional): which exception a failing request
     raises — the property says "regardless of failures", so the way a request fails must not matter"""
     import requests
@@ -19,7 +19,8 @@ def impl_nodes_used(n, outcomes, kinds=None):
     excs = [lambda: RpcError('boom'), lambda: requests.exceptions.ConnectionError('refused'), lambda: requests.exceptions.ReadTimeout('slow'),
             lambda: RuntimeError('bug')]
 
-    cli = RpcMultiNode([f'http://node{i}' for i in range(n)])
+    uris = [f'http://node{i}' for i in range(n)]      # the caller's own list (for a `.pool` shell: a module-level list)
+    cli = RpcMultiNode(uris)
     used = []
     it = iter(zip(outcomes, kinds or [0] * len(outcomes)))
 
@@ -34,7 +35,13 @@ def impl_nodes_used(n, outcomes, kinds=None):
 
     for i, node in enumerate(cli.nodes):
         node.request = mk(i)
-    for _ in outcomes:
+    for step, _ in enumerate(outcomes):
+        if mutate is not None and step == mutate[0]:
+            # the caller goes on using its list: the client's nodes were fixed when it was built
+            if mutate[1] > 0:
+                uris.append('http://later')
+            elif len(uris) > 1:
+                uris.pop()
         try:
             cli.request('GET', 'x')
         except Exception:
@@ -64,7 +71,10 @@ def run(ctx):
     for idx, (n, os_) in enumerate(cases):
         # the failure kind of every failing request: all RpcError for every third case, otherwise drawn per request
         kinds = [0] * len(os_) if idx % 3 == 0 else [ctx.rng.randrange(len(FAILURE_KINDS)) for _ in os_]
-        used = impl_nodes_used(n, os_, kinds)
+        mutate = (ctx.rng.randrange(0, len(os_)), ctx.rng.choice([1, -1])) if (idx % 5 == 2 and os_) else None
+        used = impl_nodes_used(n, os_, kinds, mutate)
+        if mutate:
+            ctx.count('uri_list_mutated_after_construction', 'grown' if mutate[1] > 0 else 'shrunk')
         ctx.case({'n': n, 'outcomes': os_, 'failure_kinds': [FAILURE_KINDS[k] for o, k in zip(os_, kinds) if not o]}, nontrivial=(0 in os_ and n >= 2))
         for o, k in zip(os_, kinds):
             if not o:
@@ -74,12 +84,14 @@ def run(ctx):
         want = [i % n for i in range(len(os_))]
         if used != want:
             # shrink: the shortest prefix that already deviates
-            k = next(i for i, (a, b) in enumerate(zip(used, want)) if a != b) + 1
+            k = next((i for i, (a, b) in enumerate(zip(used, want)) if a != b), min(len(used), len(want))) + 1     # (a request that reached no node at all: lists differ in length)
             first_err = os_.index(0) if 0 in os_[:k] else -1
             key = 'rotation-sticks-after-error' if first_err >= 0 and used[:first_err + 1] == want[:first_err + 1] else f'n={n} outcomes={os_[:k]}'
             fk = [FAILURE_KINDS[kk] if not o else 'ok' for o, kk in zip(os_[:k], kinds[:k])]
             if any(kk for o, kk in zip(os_[:k], kinds[:k]) if not o):
                 key += ' failures=' + ','.join(fk)
+            if mutate and mutate[0] < k:
+                key += f" caller's-uri-list-{'grown' if mutate[1] > 0 else 'shrunk'}-before-request-{mutate[0]}" 
             ctx.violation(key, f'n={n} outcomes={fk}: nodes used {used[:k]} expected {want[:k]}',
                           {'n': n, 'outcomes': os_[:k], 'failure_kinds': fk, 'used': used[:k], 'expected': want[:k]})
         if model is not None:
